@@ -74,6 +74,76 @@ func schedPart(r *runner.Run, t *testing.T) {
 // the clock may pass the lease expiry in between. An acknowledged ack/nack must have taken effect: if any of the two
 // calls answered 204, the message must be settled accordingly at the end (acked: gone; dead-lettered: dead); the
 // idempotent duplicate answer is only legal for an operation that itself already succeeded.
+// pullStaleDuplicates: the lease has expired and the message was handed to another worker; the OLD holder's
+// settlement arrives twice, overlapping. Both must be refused (409) and the new holder's lease must be untouched - a
+// stale call may only succeed as the duplicate of an operation that already SUCCEEDED.
+func pullStaleDuplicates(r *runner.Run, t *testing.T) {
+	for _, kind := range []string{"ack", "nack", "nackdead"} {
+		kind := kind
+		dir := filepath.Join(runner.Scratch(), "c04stale")
+		body := func(x *sched.Exec) {
+			w, err := boot("memory", dir)
+			if err != nil {
+				x.Err = err
+				return
+			}
+			ho := w.do(op{Kind: "deq", Batch: 1})
+			if len(ho.Obs.Items) != 1 {
+				x.Err = fmt.Errorf("setup dequeue returned %d items", len(ho.Obs.Items))
+				w.a.Shutdown()
+				return
+			}
+			stale := ho.Obs.Items[0].Lease
+			id := ho.Obs.Items[0].ID
+			time.Sleep(ttl + time.Second)
+			h2 := w.do(op{Kind: "deq", Batch: 2})
+			cur := ""
+			for _, it := range h2.Obs.Items {
+				if it.ID == id {
+					cur = it.Lease
+				}
+			}
+			if cur == "" {
+				x.Err = fmt.Errorf("setup: message %s was not handed out again after its lease expired", id)
+				w.a.Shutdown()
+				return
+			}
+			for i := 0; i < 2; i++ {
+				x.Go(fmt.Sprintf("old%d", i), func() {
+					h := w.do(op{Kind: kind, Lease: stale})
+					x.Logf("status=%d", h.Code)
+				})
+			}
+			x.Run()
+			x.Finish()
+			state, lease := "gone", ""
+			for _, m := range w.listing() {
+				if m.ID == id {
+					state, lease = m.State, m.Lease
+				}
+			}
+			_ = lease
+			x.Logf("final=%s", state)
+			w.a.Shutdown()
+		}
+		oracle := func(x *sched.Exec) {
+			for _, l := range x.Log {
+				switch {
+				case l == "status=409":
+				case len(l) > 6 && l[:6] == "final=":
+					if l[6:] != "leased" {
+						sched.Failf("the old holder's stale %s changed the message the new holder has leased: state %s", kind, l[6:])
+					}
+				default:
+					sched.Failf("a %s with a lease that expired and was handed to another worker answered %s, want 409 (no identical operation on it ever succeeded)", kind, l)
+				}
+			}
+		}
+		schedrun.Run(r, t, schedrun.Spec{Name: "pull-stale-duplicate-" + kind, Bound: runner.Pick(r, 3, -1), Shards: 8, Budget: runner.Pick(r, 15*time.Second, 3*time.Minute), Body: body, Oracle: oracle,
+			VioKey: func(f *sched.Failure) string { return "overlapping-stale-duplicate:" + kind }})
+	}
+}
+
 func pullDuplicates(r *runner.Run, t *testing.T) {
 	for _, kind := range []string{"ack", "nackdead"} {
 		kind := kind
